@@ -24,6 +24,8 @@ func init() {
 		vcRunC13EmfileLong,
 		vcRunC13IdleThenBusy,
 		vcRunC13PendingOutput,
+		vcRunC13NoHandlers,
+		vcRunC13NoHandlers,
 	}
 }
 
@@ -889,4 +891,67 @@ func vcRunC13PendingOutput(t *vcTrial) {
 	srv.Stop(2 * time.Second)
 	t.Stat("pending_output_trials", 1)
 	t.Nontrivial, t.Sig = pending > 0, "pending-output"
+}
+
+// vcRunC13NoHandlers: a server with OnPrepare only (blocking-style use: no OnRequest, no OnConnect).
+// For such connections a peer's hang-up leaves the teardown to a user-side Close - which Shutdown's
+// close pass must issue: the connections are idle. Shutdown returns nil within its deadline, the
+// descriptors are closed, nothing stays tracked.
+func vcRunC13NoHandlers(t *vcTrial) {
+	r := t.R
+	t.P("variant", "server without OnRequest/OnConnect, peers already gone")
+	audit := vcStartAudit()
+	_ = audit
+	srv, err := vcStartServer(vcSrvOpts{Network: []string{"tcp", "unix"}[r.intn(2)], NCloseCb: 1, NoOnRequest: true, NoDefaultTimeouts: true})
+	if err != nil {
+		t.Inconclusive("server start: %v", err)
+		return
+	}
+	n := r.rng(1, 6)
+	var recs []*vcConnRec
+	var keep []net.Conn
+	for i := 0; i < n; i++ {
+		c, err := vcDialRaw(srv)
+		if err != nil {
+			continue
+		}
+		rec := srv.nextAccepted(2 * time.Second)
+		if rec == nil {
+			c.Close()
+			continue
+		}
+		recs = append(recs, rec)
+		if r.chance(70) {
+			c.Close() // the peer hangs up (no unread data left behind)
+		} else {
+			keep = append(keep, c) // an idle, open connection
+		}
+	}
+	// the hang-ups are processed
+	for _, rec := range recs {
+		for dl := time.Now().Add(time.Second); rec.Conn.IsActive() && time.Now().Before(dl); {
+			time.Sleep(100 * time.Microsecond)
+		}
+	}
+	ctx, cancel := context.WithTimeout(context.Background(), 3*time.Second)
+	t0 := time.Now()
+	shErr := srv.Evl.Shutdown(ctx)
+	cancel()
+	for _, c := range keep {
+		c.Close()
+	}
+	if shErr != nil {
+		s := vc13ServerOf(srv.Evl)
+		_ = s
+		t.Violate("C13", "idle_not_closed", "Shutdown of a server without OnRequest/OnConnect returned %v after %v although every one of its %d connections was idle (peer already gone: %d): idle connections are closed by the close pass", shErr, time.Since(t0).Round(time.Millisecond), len(recs), len(recs)-len(keep))
+		return
+	}
+	for _, rec := range recs {
+		if !rec.waitClosed(2 * time.Second) {
+			t.Violate("C13", "nil_with_open_connection", "Shutdown returned nil but accepted connection fd=%d of a handler-less server has not run its close callbacks (active=%v)", rec.FD, rec.Conn.IsActive())
+			return
+		}
+	}
+	t.Stat("no_handler_server_trials", 1)
+	t.Nontrivial, t.Sig = len(recs) > 0, "no-handlers"
 }
